@@ -116,6 +116,9 @@ func implStep(line string) (out string) {
 		if r := recover(); r != nil {
 			out = "err panic"
 			lastPanic = fmt.Sprint(r)
+			if os.Getenv("LSH_TRACE") != "" {
+				fmt.Fprintf(os.Stderr, "PANIC %v\n%s\n", r, debug.Stack())
+			}
 			if faultHook != nil {
 				if o := faultHook(f, lastPanic); o != "" {
 					out = o
